@@ -153,6 +153,36 @@ func Topo(kind string, shape PathShape, goFunc bool, root string, n int) *spec.S
 		conn("src.out", "A.in")
 		conn("A.out", "CC.in")
 		conn("CC.out", "B.in")
+	case "tagzip":
+		// two differently tagged branches zipped by a two-in-port process
+		addSrc("src", n)
+		addSrc("srr", n)
+		addProc("A", in, []string{"out"}, nil, nil, pk)
+		addProc("R", in, []string{"out"}, nil, nil, spec.KCmd)
+		s.Procs = append(s.Procs, &spec.Proc{Name: "TL", Kind: spec.KMapToTags, Tags: []*spec.TagRule{{Key: "left", Rule: "idx"}}},
+			&spec.Proc{Name: "TR", Kind: spec.KMapToTags, Tags: []*spec.TagRule{{Key: "right", Rule: "stem"}, {Key: "kind", Rule: "const:r"}}})
+		addProc("J", []spec.PortDecl{{Name: "a"}, {Name: "b"}}, []string{"out"}, nil, nil, spec.KCmd)
+		addProc("K", in, []string{"out"}, nil, nil, spec.KCmd)
+		conn("src.out", "A.in")
+		conn("srr.out", "R.in")
+		conn("A.out", "TL.in")
+		conn("R.out", "TR.in")
+		conn("TL.out", "J.a")
+		conn("TR.out", "J.b")
+		conn("J.out", "K.in")
+	case "tagtwice":
+		// a file tagged, processed, and its descendant tagged again
+		addSrc("src", n)
+		addProc("A", in, []string{"out"}, nil, nil, pk)
+		s.Procs = append(s.Procs, &spec.Proc{Name: "T1", Kind: spec.KMapToTags, Tags: []*spec.TagRule{{Key: "first", Rule: "idx"}}})
+		addProc("B", in, []string{"out"}, nil, nil, spec.KCmd)
+		s.Procs = append(s.Procs, &spec.Proc{Name: "T2", Kind: spec.KMapToTags, Tags: []*spec.TagRule{{Key: "second", Rule: "const:s"}}})
+		addProc("C", in, []string{"out"}, nil, nil, spec.KCmd)
+		conn("src.out", "A.in")
+		conn("A.out", "T1.in")
+		conn("T1.out", "B.in")
+		conn("B.out", "T2.in")
+		conn("T2.out", "C.in")
 	case "gather":
 		// G has an ordinary in-port (hdr) and a joined one (parts)
 		addSrc("src", n)
